@@ -268,6 +268,8 @@ convert(struct func *f, struct type *dst, struct type *src, struct value *l)
 		dst = &typeulong;
 	if (dst->kind == TYPEVOID)
 		return NULL;
+	if (src->kind == TYPELDOUBLE || dst->kind == TYPELDOUBLE)
+		fatal("long double is not yet supported");
 	if (!(src->prop & PROPREAL) || !(dst->prop & PROPREAL))
 		fatal("internal error; unsupported conversion");
 	if (dst->kind == TYPEBOOL) {
